@@ -198,7 +198,10 @@ def _model_manifest(cs):
         prev = None
         if rng.random() < 0.2:
             prev, _ = _relpath(rng)
-            if prev in used:
+            if rng.random() < 0.12:
+                prev = p  # a file moved between two nested histories keeps its relative name: previous path == path
+                cs.count("previous_path_equal_to_path")
+            elif prev in used:
                 prev = None
             else:
                 used.add(prev)
